@@ -104,12 +104,22 @@ func (c *VC) ghostBuiltin(st *State, name string, call *ast.CallExpr) []*Term {
 		sig := tv.Type.(*types.Signature)
 		p := sig.Params().At(0)
 		bv := c.boundVar(p.Name(), c.sortOf(p.Type()))
+		if c.mode == ModeInt {
+			if bl, ok1 := c.bounds(lo); ok1 {
+				if bh, ok2 := c.bounds(hi); ok2 {
+					// NOTE: only valid inside the quantifier's range guard, where the body is evaluated
+					c.varBounds[bv.Op] = interval{bl.lo, bh.hi}
+				}
+			}
+		}
 		sub := st.clone()
 		sub.env[p] = bv
 		saveNN := c.noName
 		c.noName = true
+		c.quantDepth++
 		nf := len(c.facts)
 		body := c.evalCond(sub, ret.Results[0])
+		c.quantDepth--
 		c.noName = saveNN
 		// facts created under the binder would mention the bound variable: drop them
 		c.facts = c.facts[:nf]
@@ -148,6 +158,20 @@ func (c *VC) ghostBuiltin(st *State, name string, call *ast.CallExpr) []*Term {
 		a := c.eval(st, call.Args[0])
 		b := c.eval(st, call.Args[1])
 		return []*Term{mkEq(mkField(a, "sl_base"), mkField(b, "sl_base"))}
+	case "sameArray":
+		// same backing window: base, offset and capacity agree (an in-place extension)
+		a := c.eval(st, call.Args[0])
+		b := c.eval(st, call.Args[1])
+		return []*Term{mkAnd(mkEq(mkField(a, "sl_base"), mkField(b, "sl_base")), mkEq(mkField(a, "sl_off"), mkField(b, "sl_off")), mkEq(mkField(a, "sl_cap"), mkField(b, "sl_cap")))}
+	case "disjointFromTail":
+		// the elements of v do not overlap the spare capacity of b
+		v := c.eval(st, call.Args[0])
+		b := c.eval(st, call.Args[1])
+		vlo := mkField(v, "sl_off")
+		vhi := c.binop(token.ADD, vlo, mkField(v, "sl_len"), it)
+		blo := c.binop(token.ADD, mkField(b, "sl_off"), mkField(b, "sl_len"), it)
+		bhi := c.binop(token.ADD, mkField(b, "sl_off"), mkField(b, "sl_cap"), it)
+		return []*Term{mkOr(mkNot(mkEq(mkField(v, "sl_base"), mkField(b, "sl_base"))), c.cmp(token.LEQ, vhi, blo, it), c.cmp(token.LEQ, bhi, vlo, it), mkEq(mkField(v, "sl_len"), c.idxLit(0)))}
 	case "bytesEq":
 		a := c.eval(st, call.Args[0])
 		b := c.eval(st, call.Args[1])
@@ -170,6 +194,7 @@ func (c *VC) seqEqual(st *State, a *Term, ta types.Type, b *Term, tb types.Type)
 	la, fa := get(a, ta)
 	lb, fb := get(b, tb)
 	i := c.boundVar("i", c.idxSort())
+	c.varBounds[i.Op] = interval{bigInt(0), pow2(maxLenBits)}
 	body := mkImplies(mkAnd(c.cmp(token.LEQ, c.idxLit(0), i, it), c.cmp(token.LSS, i, la, it)), mkEq(fa(i), fb(i)))
 	return mkAnd(mkEq(la, lb), mkForall([]*Term{i}, body))
 }
@@ -318,6 +343,32 @@ func (c *VC) callByContract(st *State, fi *FuncInfo, args []*Term, call *ast.Cal
 	}
 	c.runContract(post, K, run2)
 	return res
+}
+
+// callLemma uses a (separately proved) pure lemma: its requires become obligations here,
+// its ensures become facts. The lemma body must consist of requires/ensures and ghost
+// definitions only.
+func (c *VC) callLemma(st *State, L *FuncInfo, args []*Term, call *ast.CallExpr) []*Term {
+	c.callees[L.Name] = true
+	ps := paramObjs(L)
+	pre := st.clone()
+	for i, p := range ps {
+		if i < len(args) {
+			pre.env[p] = args[i]
+		}
+	}
+	ctext := exprText(c.prog.fset, call.Fun)
+	run := &contractRun{phase: 1}
+	run.onReq = func(text string, pos token.Pos, g *State, t *Term) {
+		c.addObl("lemma-pre", ctext+": "+text, call.Pos(), g.pc, t)
+	}
+	c.runContract(pre, L, run)
+	run2 := &contractRun{phase: 2, old: pre}
+	run2.onEns = func(text string, pos token.Pos, g *State, t *Term) {
+		c.addFact(g.pc, t)
+	}
+	c.runContract(pre, L, run2)
+	return nil
 }
 
 // ---------------------------------------------------------------- verifying one function
